@@ -334,7 +334,10 @@ def run(run):
     for d in par.map_shards(shard, [(i, procs, run.seed, quick, n_random,
                                      run.known) for i in range(procs)], procs):
         run.merge(d)
-    run.exhaustive = True
+    # the bare level / marker sequences are enumerated completely in both
+    # tiers; the filler and rule placements only in the thorough tier
+    run.exhaustive = not quick
+    run.extra["quick_tier_samples_fillers"] = quick
     run.rule = (
         "All heading-level sequences up to length 4"
         + " (alone, with every filler of a 14-entry balanced-markup catalogue "
